@@ -1,7 +1,8 @@
 import Vflow.Model.CacheFile
 /-! line protocol for the cache file:
 `cf-dump <ipfix|nf9>`, `cf-load <ipfix|nf9> <doc|invalid>`, `cf-list <ipfix|nf9>`;
-doc = `sn=<int>;<shard>,<shard>,…`, shard = `N` | `M` | `E` | `key=tpl|key=tpl|…`,
+doc = `sn=<int>;<shard>,<shard>,…`, shard = `N` | `M` | `E` | `key=tpl|key=tpl|…` (key = hex of the key text, `-` for the
+empty text); a listing is `shard:key=tpl|…` over all shards, by shard index and then by key text,
 tpl = `tid.cnt.scnt.<fields>.<scope>`, fields = `id:len:ent/id:len:ent/…` or `-` -/
 namespace Driver
 open Vflow Vflow.CacheFile
@@ -11,13 +12,17 @@ def showSpecs (l : List Spec) : String :=
 
 def showTpl (t : Template) : String := s!"{t.tid}.{t.cnt}.{t.scnt}.{showSpecs t.fields}.{showSpecs t.scope}"
 
-def insertByKey (e : Nat × Template) : List (Nat × Template) → List (Nat × Template)
+def keyLt (a b : CKey) : Bool := a.1 < b.1 || (a.1 == b.1 && bytesLt a.2 b.2)
+
+def insertByKey (e : CKey × Template) : List (CKey × Template) → List (CKey × Template)
   | [] => [e]
-  | x :: xs => if e.1 < x.1 then e :: x :: xs else x :: insertByKey e xs
+  | x :: xs => if keyLt e.1 x.1 then e :: x :: xs else x :: insertByKey e xs
+
+def showKeyText (k : Bytes) : String := if k.isEmpty then "-" else hex k
 
 def listCache (c : Cache) : String :=
   if c.isEmpty then "-" else
-  "|".intercalate ((c.foldr insertByKey []).map fun e => s!"{e.1}={showTpl e.2}")
+  "|".intercalate ((c.foldr insertByKey []).map fun e => s!"{e.1.1}:{showKeyText e.1.2}={showTpl e.2}")
 
 def parseSpecs (s : String) : Option (List Spec) :=
   if s = "-" then some [] else
@@ -40,9 +45,9 @@ def parseShard (s : String) : Option DocShard :=
   if s = "E" then some (some (some [])) else
   ((s.splitOn "|").mapM fun (e : String) =>
     match e.splitOn "=" with
-    | [k, t] => match k.toNat?, parseTpl t with
-      | some k, some t => some (k, t)
-      | _, _ => none
+    | [k, t] => match parseTpl t with
+      | some t => some (if k = "-" then [] else unhex k, t)
+      | none => none
     | _ => none).map fun l => some (some l)
 
 def parseDoc (s : String) : Option (Option Doc) :=
